@@ -10,6 +10,7 @@ package main
 // what really ran.
 
 import (
+	"math/big"
 	"crypto/sha1"
 	"encoding/hex"
 	"encoding/json"
@@ -156,6 +157,36 @@ func driveOps(c *Ctx) error {
 				rp = append(rp, J{"mp": mp, "r": run(api, ai, x)})
 			}
 			ev["rp"] = rp
+		}
+		if api == "Modulo" && allNum && len(a0) == 2 {
+			// relations between operands and remainder as math/big sees them, under every pairing of representations
+			// (the trace spec states the laws: the remainder is smaller than the divisor, has the sign of the dividend,
+			// and is the dividend itself when that is already smaller than the divisor)
+			seen := map[string]bool{}
+			mq := []any{}
+			for i := 0; i < 6; i++ {
+				for k := 0; k < 6; k++ {
+					x, y := Concretize(asJ(aj[0]), i), Concretize(asJ(aj[1]), k)
+					fx, fy := x.AsBigFloat(), y.AsBigFloat()
+					if fx.IsInf() || fy.IsInf() || fy.Sign() == 0 {
+						continue
+					}
+					var r cty.Value
+					p, _ := guard(func() { r = x.Modulo(y) })
+					e := J{"ok": !p, "ca": new(big.Float).Abs(fx).Cmp(new(big.Float).Abs(fy)), "sa": fx.Sign()}
+					if !p && r.IsKnown() && !r.IsNull() && r.Type() == cty.Number {
+						fr := r.AsBigFloat()
+						e["sr"] = fr.Sign()
+						e["rltb"] = new(big.Float).Abs(fr).Cmp(new(big.Float).Abs(fy)) < 0
+						e["rsa"] = fr.Cmp(fx) == 0
+					}
+					if key := jsonKey(e); !seen[key] {
+						seen[key] = true
+						mq = append(mq, e)
+					}
+				}
+			}
+			ev["mq"] = mq
 		}
 		if len(api) > 3 && api[:3] == "fn:" {
 			ev["fn"] = api[3:]
